@@ -53,6 +53,13 @@ theorem tstep_inv (f : AbsTtl) (cfg : TCfg) (c : TCache σ) (h : List (PRec σ))
       by_cases hhas : has c (m, u) = true
       · simp only [hhas, if_true]; exact same _
       · simp only [hhas, Bool.false_eq_true, if_false]
+        by_cases hex0 : r.raExact = false
+        · simp only [hex0, Bool.not_false, if_true]; exact same _
+        have hex : r.raExact = true := by
+          cases hx : r.raExact with
+          | true => rfl
+          | false => exact absurd hx hex0
+        simp only [hex, Bool.not_true, Bool.false_eq_true, if_false]
         cases hra : r.raNs with
         | none => simp only [Option.bind]; exact same _
         | some n =>
@@ -118,7 +125,7 @@ theorem tstep_recOk (f : AbsTtl) (hf : AbsTtlOk f) (cfg : TCfg) (c : TCache σ) 
         · simp only [hl, if_false, tRecOk]
           rw [List.any_eq_true]
           refine ⟨r0, hm, ?_⟩
-          simp only [tJustifies, hop, hty, hra, hk'.1, hk'.2, hst, hcr, decide_true, Bool.and_self, Bool.true_and,
+          simp only [tJustifies, hop, hty, origNs, hra, hk'.1, hk'.2, hst, hcr, decide_true, Bool.and_self, Bool.true_and,
             Bool.and_true, Bool.and_eq_true, decide_eq_true_eq]
           rw [hcr] at hl
           refine ⟨ht, ?_⟩
@@ -128,7 +135,7 @@ theorem tstep_recOk (f : AbsTtl) (hf : AbsTtlOk f) (cfg : TCfg) (c : TCache σ) 
         simp only [tRecOk]
         rw [List.any_eq_true]
         refine ⟨r0, hm, ?_⟩
-        simp only [tJustifies, hop, hty, hra, hk'.1, hk'.2, hst, hres, decide_true, Bool.and_self,
+        simp only [tJustifies, hop, hty, instNs, hra, hk'.1, hk'.2, hst, hres, decide_true, Bool.and_self,
           Bool.true_and, Bool.and_true, Bool.and_eq_true, decide_eq_true_eq]
         refine ⟨ht, ?_⟩
         rcases hf n r0.t with h1 | h1
